@@ -305,3 +305,61 @@ def translate_msgpred(fn, lean_name):
         raise Untranslatable("statement " + type(s).__name__)
 
     return "def %s (isReq isProx : Bool) (cmd : Nat) : Bool :=\n%s\n" % (lean_name, block(tree.body, 1))
+
+
+# --------------------------------------------------------------------------- BaseMessageProcessor.create_answer
+
+def translate_create_answer(fn):
+    """`create_answer(self, msg)`: an if/elif chain over `msg.header.command_code == <bytes constant>` whose bodies are
+    `answer = self.association.base.<template>`, then the UNCONDITIONAL statements `answer.header.hop_by_hop =
+    msg.header.hop_by_hop`, `answer.header.end_to_end = msg.header.end_to_end` (either order), then `return answer`.
+    Result: Lean text defining `createAnswerTmpl : Nat -> Option String` (template name by command code; `none` = no branch
+    taken, the later use of `answer` raises) and the two flags `copiesHbh`, `copiesE2e`."""
+    src = textwrap.dedent(inspect.getsource(fn))
+    tree = ast.parse(src).body[0]
+    args = [a.arg for a in tree.args.args]
+    if len(args) != 2 or args[0] != "self":
+        raise Untranslatable("signature")
+    m = args[1]
+    G = fn.__globals__
+    body = [s for s in tree.body if not (isinstance(s, ast.Expr) and isinstance(s.value, ast.Constant))]
+    if not body or not isinstance(body[0], ast.If) or not isinstance(body[-1], ast.Return):
+        raise Untranslatable("shape")
+    var = None
+    branches = []
+    node = body[0]
+    while True:
+        t = node.test
+        ok = (isinstance(t, ast.Compare) and len(t.ops) == 1 and isinstance(t.ops[0], ast.Eq) and isinstance(t.comparators[0], ast.Name)
+              and isinstance(G.get(t.comparators[0].id), bytes) and ast.unparse(t.left) == "%s.header.command_code" % m)
+        if not ok or len(node.body) != 1 or not isinstance(node.body[0], ast.Assign) or len(node.body[0].targets) != 1:
+            raise Untranslatable("branch shape")
+        a = node.body[0]
+        if not isinstance(a.targets[0], ast.Name) or not ast.unparse(a.value).startswith("self.association.base."):
+            raise Untranslatable("branch assignment")
+        var = var or a.targets[0].id
+        if a.targets[0].id != var:
+            raise Untranslatable("two answer variables")
+        branches.append((int.from_bytes(G[t.comparators[0].id], "big"), ast.unparse(a.value).rsplit(".", 1)[1]))
+        if len(node.orelse) == 1 and isinstance(node.orelse[0], ast.If):
+            node = node.orelse[0]
+        elif not node.orelse:
+            break
+        else:
+            raise Untranslatable("else branch")
+    copies = {"hop_by_hop": False, "end_to_end": False}
+    for s in body[1:-1]:
+        txt = ast.unparse(s)
+        for f in copies:
+            if txt == "%s.header.%s = %s.header.%s" % (var, f, m, f):
+                copies[f] = True
+                break
+        else:
+            raise Untranslatable("statement `%s`" % txt[:60])
+    if ast.unparse(body[-1]) != "return %s" % var:
+        raise Untranslatable("return")
+    chain = "none"
+    for code, tmpl in reversed(branches):
+        chain = "if cmd = %d then some \"%s\" else %s" % (code, tmpl, chain)
+    return ("def createAnswerTmpl (cmd : Nat) : Option String := %s\n"
+            "def copiesHbh : Bool := %s\ndef copiesE2e : Bool := %s\n" % (chain, str(copies["hop_by_hop"]).lower(), str(copies["end_to_end"]).lower()))
